@@ -32,6 +32,8 @@ class FuncCtx:
     self.g._funcinfo = f
     self.rd = dataflow.Reaching(self.g)
     self.rd.consts = module_consts(f.module)
+    self.rd.ntuples = frozenset(name for name, v in f.module.assigns.items()
+                                if isinstance(v, ast.Call) and norm(v.func).endswith('namedtuple') and len(v.args) == 2)
     self.stmt_of = {}
     for n in self.g.nodes:
       for e in self.node_exprs(n):
